@@ -48,7 +48,10 @@ func c02genProg(rng *core.Rng, id string) (*hs.Prog, string, bool) {
 			o := core.Pick(rng, scalarOIDs)
 			oids = append(oids, o)
 			name := rng.Text(rng.Intn(20), true)
-			if rng.Intn(4) == 0 {
+			if rng.Intn(6) == 0 {
+				name = rng.Ident(rng.BoundaryLen()) // names exactly at / next to buffer-size boundaries
+				nt = true
+			} else if rng.Intn(4) == 0 {
 				name = core.Pick(rng, []string{"", " ", "?column?", "ü", "col\twith\ttabs", strings.Repeat("n", 300), "日本語"})
 				nt = true
 			}
@@ -91,7 +94,7 @@ func c02genProg(rng *core.Rng, id string) (*hs.Prog, string, bool) {
 				shape += "b"
 				nt = true
 			case r < 82:
-				tag := core.Pick(rng, []string{"SELECT 1", "", " ", "INSERT 0 1", rng.Text(rng.Intn(40), true), strings.Repeat("T", 5000)})
+				tag := core.Pick(rng, []string{"SELECT 1", "", " ", "INSERT 0 1", rng.Text(rng.Intn(40), true), strings.Repeat("T", 5000), rng.Ident(rng.BoundaryLen()), rng.Ident(rng.BoundaryLen())})
 				st.Ops = append(st.Ops, hs.Op{K: "complete", Tag: tag})
 				shape += "c"
 			case r < 86:
@@ -118,7 +121,7 @@ func c02genProg(rng *core.Rng, id string) (*hs.Prog, string, bool) {
 }
 
 func c02err(rng *core.Rng) *hs.ErrSpec {
-	spec := &hs.ErrSpec{Base: core.Pick(rng, []string{"boom", "", " ", rng.Text(1+rng.Intn(60), true), strings.Repeat("long message ", 400), "multi\nline\terror 100%"})}
+	spec := &hs.ErrSpec{Base: core.Pick(rng, []string{"boom", "", " ", rng.Text(1+rng.Intn(60), true), strings.Repeat("long message ", 400), "multi\nline\terror 100%", rng.Ident(rng.BoundaryLen())})}
 	// (an empty error text is legitimate: the message field is then empty)
 	for _, k := range c17kinds {
 		if rng.Bool() {
@@ -171,7 +174,11 @@ func (ch c02) Run(c *core.Ctx) {
 		rng := core.NewRng(c.Seed, "C02p", c.Batch, i)
 		sess := &hs.Sess{Progs: map[string]*hs.Prog{}}
 		var in []byte
-		in = append(in, pg.Startup([][2]string{{"user", rng.Text(1+rng.Intn(10), true)}})...)
+		user := rng.Text(1+rng.Intn(10), true)
+		if rng.Intn(3) == 0 {
+			user = rng.Ident(rng.BoundaryLen())
+		}
+		in = append(in, pg.Startup([][2]string{{"user", user}})...)
 		shapes := ""
 		nt := false
 		for q := 1 + rng.Intn(4); q > 0; q-- {
